@@ -6,7 +6,7 @@ from typing import List, Set
 
 from .. import lib as L
 from .. import templates as T
-from ..core import Repo
+from ..core import Repo, unparse
 from ..report import Finding, RuleResult
 from . import c01, c07, c08
 from . import _c08_util as U
@@ -224,6 +224,56 @@ def rule_goalform(repo: Repo) -> RuleResult:
     return r
 
 
+SECTION_WRITERS = [
+    # (writer, the collections whose elements its text lists)
+    ("ProblemExporter.write_goal_state", ("goal_state_predicates", "goal_state_fluents")),
+    ("ProblemExporter.write_initial_state", ("initial_state_predicates", "initial_state_fluents")),
+    ("ProblemExporter.write_objects", ("problem_objects",)),
+]
+
+
+def rule_everypath(repo: Repo, rid: str = "C09.everypath") -> RuleResult:
+    """a section writer lists the elements of every collection it is given on EVERY path: a text that does not depend on one of them may
+    only be returned where that collection is known to be empty (a shortcut for 'no goal literals' must not lose the numeric goal
+    conditions)"""
+    from ..core import AnalysisError
+    r = RuleResult(rid, "every text a section writer returns depends on each collection it was given, unless the path is taken only when that collection is empty",
+                   "the same initial facts and fluent values, the same goal literals and numeric goal conditions")
+    for spec, _names in SECTION_WRITERS:
+        f = U.fn(repo, spec)
+        p = L.prov(repo, f)
+        params = [x for x in f.params if x != f.self_name]
+        if not params:
+            raise AnalysisError(f"{spec}: no parameters")
+        roots = {f"param:{x}": f"empty:{x}" for x in params}
+        G = L.Guards(f, L.emptiness_matcher(p, roots))
+        g = G.g
+        rets = [x for x in L.func_returns(f) if x.value is not None]
+        if not rets:
+            raise AnalysisError(f"{spec}: no returned text")
+        for x in params:
+            r.site(f"{f.qn} [{x}]")
+            seen = G.reach({f"empty:{x}": False})
+            under = G.under({f"empty:{x}": False}, seen)
+            bad = None
+            for rt in rets:
+                if g.node_of(rt) not in seen:
+                    continue
+                try:
+                    tr = p.trace(rt.value, under=under)
+                except KeyError:
+                    continue
+                if not any(t[0] == f"param:{x}" for t in tr):
+                    bad = rt
+            if bad is not None:
+                r.fail(Finding(rid, f, f"section-without:{x}", f"{unparse(bad, 60)} is returned although {x} is not empty and the text does not depend on it: "
+                               f"those elements are missing from the exported problem", node=bad))
+            else:
+                r.ok({"writer": f.qn, "collection": x})
+    r.require_sites(5)
+    return r
+
+
 def rules(repo: Repo, tier: str) -> List[RuleResult]:
     return [c08.rule_fields(repo, "C09.fields", FIELD_TABLE), rule_keywords(repo), rule_domain_name(repo), rule_goalform(repo),
             c08.rule_balance(repo, "C09.balance", ["ProblemExporter.extract_problem", "ProblemExporter.write_objects", "ProblemExporter.write_initial_state",
@@ -232,4 +282,4 @@ def rules(repo: Repo, tier: str) -> List[RuleResult]:
             c08.rule_typedparams(repo, "C09.typedobjects", ["ProblemExporter.write_objects"]) if False else c08.rule_balance(repo, "C09.balance2", ["PDDLObject.__str__"]),
             c01.rule_dupkeys(repo, "C09.dupkeys", ["ProblemParser.parse_grounded_numeric_fluent"]),
             # parsing one problem must not leak into the text of another: no write into shared module-level state
-            c07.rule_global(repo, "C09.global"), rule_elements(repo), rule_objecttext(repo)]
+            c07.rule_global(repo, "C09.global"), rule_elements(repo), rule_objecttext(repo), rule_everypath(repo)]
